@@ -1,5 +1,5 @@
 (* One entry point for the harness: request (list Z) -> reply (list Z). *)
-From JP Require Import Base.Json Extract.Wire Extract.WireAst Model.Slice Spec.Slice Model.Ast Model.Eval Spec.Sem Spec.Compare Model.Tokens Model.Lex Model.PyFloat Model.Parse Model.Api Spec.Rfc9535Grammar Spec.Types Spec.StringLit Model.Position Spec.Position.
+From JP Require Import Base.Json Extract.Wire Extract.WireAst Model.Slice Spec.Slice Model.Ast Model.Eval Spec.Sem Spec.Compare Model.Tokens Model.Lex Model.PyFloat Model.Parse Model.Api Spec.Rfc9535Grammar Spec.Types Spec.StringLit Model.Position Spec.Position Model.Serialize Spec.NormPath.
 
 Definition iota_json (len : Z) : list json := map (fun k => JNum (NInt (Z.of_nat k))) (seq 0 (Z.to_nat len)).
 Definition enc_sel (r : list (Z * json)) : list Z := enc_list (fun p => fst p :: enc_json (snd p)) r.
@@ -122,6 +122,28 @@ Definition op_env_find (r : list Z) : list Z :=
   | None => bad_request end | None => bad_request end | None => bad_request end | None => bad_request end
   | None => bad_request end.
 
+(* [5; registry; text] -> str(compile(text)) *)
+Definition op_str_query (r : list Z) : list Z :=
+  match dec_registry r with Some (rg, r1) =>
+  match dec_str r1 with Some (q, _) =>
+    enc_result enc_str (do c <- m_compile (mk_cfg 100 rg []) q; Ok (m_str c))
+  | None => bad_request end | None => bad_request end.
+(* [6; location] -> JSONPathNode.path() *)
+Definition op_path (r : list Z) : list Z :=
+  match dec_list dec_key r with Some (loc, _) => enc_str (m_path loc) | None => bad_request end.
+Definition dec_num : dec num := fun l =>
+  match l with
+  | 2 :: z :: r => Some (NInt z, r) | 3 :: m :: e :: r => Some (NFlt m e, r) | 4 :: r => Some (NNegZero, r)
+  | 5 :: b :: r => Some (NInf (negb (b =? 0)), r) | _ => None
+  end.
+(* [21; num] -> repr *)
+Definition op_repr (r : list Z) : list Z :=
+  match dec_num r with Some (n, _) => enc_str (repr_float n) | None => bad_request end.
+
+(* [108; location] -> RFC normalized path *)
+Definition op_norm_path (r : list Z) : list Z :=
+  match dec_list dec_key r with Some (loc, _) => enc_str (norm_path loc) | None => bad_request end.
+
 (* opcodes: model side 1..99, specification side 101..199 *)
 Definition dispatch (req : list Z) : list Z :=
   match req with
@@ -129,6 +151,9 @@ Definition dispatch (req : list Z) : list Z :=
   | 2 :: r => op_compile r
   | 3 :: r => op_find r
   | 4 :: r => op_env_find r
+  | 5 :: r => op_str_query r
+  | 6 :: r => op_path r
+  | 21 :: r => op_repr r
   | 19 :: r => op_errpos r
   | 20 :: r => op_float r
   | 103 :: r => op_sem r
@@ -136,6 +161,7 @@ Definition dispatch (req : list Z) : list Z :=
   | 106 :: r => op_cmp r
   | 109 :: r => op_valid r
   | 110 :: r => op_strlit r
+  | 118 :: r => op_norm_path r
   | 119 :: r => op_linecol r
   | 7 :: len :: r =>        (* slice selector on [0, 1, ..., len-1] *)
     match dec_opt dec_z r with Some (s, r1) =>
